@@ -158,6 +158,7 @@ pub trait Prop: 'static {
 
 thread_local! {
     static LAST_PANIC: RefCell<Option<String>> = RefCell::new(None);
+    static CAPTURING: std::cell::Cell<bool> = std::cell::Cell::new(false);
 }
 static HOOK_SET: AtomicBool = AtomicBool::new(false);
 
@@ -185,6 +186,10 @@ pub fn install_panic_hook() {
             }
             short.truncate(cut);
         }
+        if !CAPTURING.with(|c| c.get()) {
+            // a panic outside a checked call is a harness defect: make it visible
+            eprintln!("harness panic: {} at {}", short, loc);
+        }
         LAST_PANIC.with(|p| *p.borrow_mut() = Some(format!("{} at {}", short, loc)));
     }));
 }
@@ -193,7 +198,10 @@ pub fn install_panic_hook() {
 pub fn catch<T>(f: impl FnOnce() -> T) -> Result<T, String> {
     install_panic_hook();
     LAST_PANIC.with(|p| *p.borrow_mut() = None);
-    match catch_unwind(AssertUnwindSafe(f)) {
+    let was = CAPTURING.with(|c| c.replace(true));
+    let r = catch_unwind(AssertUnwindSafe(f));
+    CAPTURING.with(|c| c.set(was));
+    match r {
         Ok(v) => Ok(v),
         Err(_) => Err(LAST_PANIC
             .with(|p| p.borrow_mut().take())
@@ -352,7 +360,11 @@ fn worker_config(cases: u32, shrink: bool) -> Config {
         // phase 1 never shrinks (all workers search; a pure function of code and seed);
         // phase 2 re-runs the lowest failing worker alone with a large shrink budget
         max_shrink_iters: if shrink { 200_000 } else { 0 },
-        max_shrink_time: if shrink { 25_000 } else { 0 },
+        max_shrink_time: if shrink {
+            std::env::var("VERIF_SHRINK_MS").ok().and_then(|s| s.parse().ok()).unwrap_or(25_000)
+        } else {
+            0
+        },
         max_global_rejects: 1024,
         ..Config::default()
     }
@@ -419,16 +431,25 @@ pub fn run_generated<P: Prop>(
     let results: Arc<Mutex<Vec<(usize, Stats, Option<(P::Case, String)>)>>> =
         Arc::new(Mutex::new(vec![]));
     std::thread::scope(|sc| {
+        let mut handles = vec![];
         for w in 0..WORKERS {
             let results = results.clone();
             let active_kf = active_kf.clone();
-            std::thread::Builder::new()
-                .stack_size(64 << 20)
-                .spawn_scoped(sc, move || {
-                    let (stats, fail) = run_worker::<P>(tier, seed, w, per_worker, false, &active_kf);
-                    results.lock().unwrap().push((w, stats, fail));
-                })
-                .expect("spawn worker");
+            handles.push(
+                std::thread::Builder::new()
+                    .stack_size(64 << 20)
+                    .spawn_scoped(sc, move || {
+                        let (stats, fail) = run_worker::<P>(tier, seed, w, per_worker, false, &active_kf);
+                        results.lock().unwrap().push((w, stats, fail));
+                    })
+                    .expect("spawn worker"),
+            );
+        }
+        for h in handles {
+            if h.join().is_err() {
+                eprintln!("harness error: a worker thread panicked outside a checked call");
+                std::process::exit(2);
+            }
         }
     });
     let mut results = Arc::try_unwrap(results).ok().unwrap().into_inner().unwrap();
